@@ -120,7 +120,7 @@ CHECKS["C01"] = {
              "half-turn branches, the exponentials divide by theta only off the near-zero branch, and all 19 primitives "
              "have the same normal form as modern_robotics 1.1.1. The numerical identities log(exp(x)) = x, exp(log(T)) = T, "
              "inv(T)T = I, Ad homomorphism to 5e-6 are NOT decided: they rest on the reference formulas (trusted base)."),
-    "note": "Trusted: modern_robotics 1.1.1 formulas; rewrite set N1..N16; IEEE arithmetic near the 0/pi branch points is not analysed.",
+    "note": "Trusted: modern_robotics 1.1.1 formulas; rewrite set N1..N34; IEEE arithmetic near the 0/pi branch points is not analysed.",
 }
 
 CHECKS["C17"] = {
@@ -197,7 +197,7 @@ CHECKS["C08"] = {
              "wrappers call the kernels with arguments in role order, 1-D tip loads and matching return arity. Symmetry / "
              "definiteness as numbers, FD o ID = id, energy conservation and agreement of Arm.inverseDynamics/inverseDynamicsC "
              "with the recursion are numerical identities and are NOT decided. Also (R08.4): dependence conformance inside Arm.inverseDynamics - the base step carries (0,0,0,-g) through an operator that reads the same model inputs (joint value, screw, link frames) as the general step's propagation operator."),
-    "note": "Trusted: modern_robotics 1.1.1 recursion as the physics reference; rewrite set N1..N16.",
+    "note": "Trusted: modern_robotics 1.1.1 recursion as the physics reference; rewrite set N1..N34.",
 }
 
 CHECKS["C14"] = {
